@@ -13,7 +13,42 @@ let starts_with_str (b : n list) (s : string) =
 (* split an output stream into lines keeping the final LF of each *)
 let split_lines_keep (bs : n list) : n list list = split_lines bs
 
+(* J lines: the real `scrut create`, then the real `scrut test` on what it wrote *)
+let run_created line =
+  match split_on '|' (String.sub line 2 (String.length line - 2)) with
+  | [head; doc; info] ->
+    (match split_on ' ' head with
+     | [fmt; esc; cmd_hex; code; out; title_hex] ->
+       let cram = (fmt = "c") in
+       let md = (match esc with "ascii" -> Ascii | "unicode" -> Unicode | _ -> if cram then Ascii else Unicode) in
+       let raw = bytes_of_hex out in
+       (* Markdown documents translate CR LF unless told otherwise; Cram documents keep it *)
+       let outb = if cram then raw else replace_crlf raw in
+       let lines = split_lines_keep outb in
+       bump (Printf.sprintf "created:%s/escaping:%s" fmt esc); bump ("created-exit:" ^ (if code = "0" then "0" else "nonzero"));
+       note_distinct head (lines <> []); sample (if String.length line > 300 then String.sub line 0 300 else line);
+       let has s sub = (let n = String.length sub in let rec go i = i + n <= String.length s && (String.sub s i n = sub || go (i + 1)) in go 0) in
+       if not (has info "create=0") then report "SPEC:C09" ("`scrut create` failed: " ^ info) line
+       else begin
+         let dl = str_lines (match utf8_decode (bytes_of_hex doc) with Some t -> t | None -> []) in
+         let cmd = bytes_of_hex cmd_hex and title = Some (bytes_of_hex title_hex) in
+         let codeN = n_of_int (int_of_string code) in
+         let model = if cram then render_cram (gen_cram_doc md title cmd [] lines codeN) else render_md (gen_md_doc md title cmd [] lines codeN) in
+         if model <> dl then report "DIFF:generated-document" "the document `scrut create` wrote is not the rendering of the model's title and test block" line;
+         let first_gt = (match lines with l :: _ -> starts_with_str l "> " | [] -> false) in
+         let dollar = cram && List.exists (fun l -> starts_with_str l "$ ") lines in
+         if not (has info "test=0") then begin
+           if first_gt then report "SPEC:C09" "known:first-line-looks-like-continuation the first output line starts with `> ` and is read back as a continuation of the command" line
+           else if dollar then report "SPEC:C09" "known:cram-dollar-line an output line starting with `$ ` is read back as another command in a Cram document" line
+           else report "SPEC:C09" ("the document written by `scrut create` does not pass `scrut test` on the same command: " ^ info) line
+         end;
+         if not (has info "leftover=0") then report "SPEC:C18" ("directories left in TMPDIR after create and test: " ^ info) line
+       end
+     | _ -> report "BAD" "created head" line)
+  | _ -> report "BAD" "unparsable case line" line
+
 let run () = iter_lines (fun line ->
+  if String.length line > 1 && line.[0] = 'J' then run_created line else
   match split_on '|' (String.sub line 2 (String.length line - 2)) with
   | [head; gen; pk; same; vk] ->
     (match split_on ' ' head with
